@@ -227,3 +227,294 @@ Proof.
       split; [lia|]. split; [reflexivity|]. split; [auto|exact Ez2]. }
     split; [exact Hc1|]. split; [exact Hc2|]. split; [exact Hc3|]. auto.
 Qed.
+
+(* ------------------------------------------------------------------------------------------ *)
+(* the last steps of segment construction (bare-ACK sequence number, keep-alive, MSS option)    *)
+(* ------------------------------------------------------------------------------------------ *)
+Definition with_mss (repr : tcp_repr) (m : Z) : tcp_repr :=
+  mkRepr (r_src_port repr) (r_dst_port repr) (r_control repr) (r_seq_number repr)
+         (r_ack_number repr) (r_window_len repr) (r_window_scale repr)
+         (Some (m mod 65536)) (r_sack_permitted repr) (r_sack_ranges repr)
+         (r_timestamp repr) (r_payload repr).
+
+Definition post_build (cx : ctx) (s : socket) (repr : tcp_repr) (zwp : bool) (tg : Z)
+  : outcome (socket * option tcp_repr * bool * bool * Z) :=
+  let now := cx_now cx in
+  let repr := if repr_is_empty repr && control_eqb (r_control repr) CNone
+              then repr_set_seq repr (tcp_send_next_seq s) else repr in
+  let is_keep_alive := timer_should_keep_alive (s_timer s) now && repr_is_empty repr in
+  let repr := if is_keep_alive
+              then repr_set_payload (repr_set_seq repr (seq_subn (r_seq_number repr) 1)) [0]
+              else repr in
+  do repr <-
+    (if control_eqb (r_control repr) CSyn then
+       do m <- tcp_local_mss cx;
+       Ok (with_mss repr m)
+     else Ok repr);
+  Ok (s, Some repr, zwp, is_keep_alive, tg).
+
+Lemma post_nonempty : forall cx s repr zwp tg s2 r zwp2 ka tg2,
+  ctx_ok cx -> repr_is_empty repr = false ->
+  post_build cx s repr zwp tg = Ok (s2, Some r, zwp2, ka, tg2) ->
+  s2 = s /\ zwp2 = zwp /\ ka = false /\
+  r = (if control_eqb (r_control repr) CSyn
+       then with_mss repr (cx_ip_mtu cx - wipv4_HEADER_LEN - wtcp_HEADER_LEN) else repr).
+Proof.
+  intros cx s repr zwp tg s2 r zwp2 ka tg2 Hcx He H. unfold post_build in H.
+  rewrite He in H. cbn [andb] in H. rewrite He in H. rewrite andb_false_r in H.
+  rewrite (tcp_local_mss_ok _ Hcx) in H.
+  destruct (control_eqb (r_control repr) CSyn); cbn [obind] in H; injection H as <- <- <- <- <-; auto.
+Qed.
+
+Lemma post_empty : forall cx s repr zwp tg s2 r zwp2 ka tg2,
+  repr_is_empty repr = true -> r_control repr = CNone ->
+  post_build cx s repr zwp tg = Ok (s2, Some r, zwp2, ka, tg2) ->
+  s2 = s /\ zwp2 = zwp /\
+  ((ka = false /\ r = repr_set_seq repr (tcp_send_next_seq s)) \/
+   (ka = true /\ timer_should_keep_alive (s_timer s) (cx_now cx) = true /\
+    r = repr_set_payload (repr_set_seq repr (seq_subn (tcp_send_next_seq s) 1)) [0])).
+Proof.
+  intros cx s repr zwp tg s2 r zwp2 ka tg2 He Hc H. unfold post_build in H.
+  rewrite He, Hc in H. cbn [control_eqb andb] in H.
+  assert (He' : repr_is_empty (repr_set_seq repr (tcp_send_next_seq s)) = true).
+  { unfold repr_is_empty in *. cbn [repr_set_seq r_payload r_control]. exact He. }
+  rewrite He' in H. rewrite andb_true_r in H.
+  destruct (timer_should_keep_alive (s_timer s) (cx_now cx)) eqn:Eka;
+  cbn [repr_set_payload repr_set_seq r_control r_seq_number] in H; rewrite Hc in H;
+  cbn [control_eqb obind] in H; injection H as <- <- <- <- <-; auto.
+  split; [reflexivity|]. split; [reflexivity|]. right. auto.
+Qed.
+
+Lemma build_unfold : forall cx s t,
+  tcp_dispatch_build cx s t =
+  (let ts := if s_tsval_generator s then Some (cx_tsval cx, s_last_remote_tsval s) else None in
+   let repr := mkRepr (tu_local_port t) (tu_remote_port t) CNone (s_remote_last_seq s)
+                      (Some (tcp_window_start s)) (tcp_scaled_window s) None None false no_sack ts [] in
+   do built <-
+     match s_state s with
+     | Closed => Ok (s, Some (repr_set_control repr CRst), false, 220)
+     | Listen => Ok (s, None, false, 221)
+     | FinWait1 =>
+         if s_syn_unacked_in_fin_wait s
+         then Ok (s, Some (tcp_syn_repr s repr ts false), false, 228)
+         else tcp_dispatch_build_data cx s repr
+     | SynSent => Ok (s, Some (tcp_syn_repr s repr ts true), false, 222)
+     | SynReceived => Ok (s, Some (tcp_syn_repr s repr ts false), false, 223)
+     | Established | Closing | CloseWait | LastAck => tcp_dispatch_build_data cx s repr
+     | FinWait2 | TimeWait => Ok (s, Some repr, false, 227)
+     end;
+   let '(s, orepr, zwp, tg) := built in
+   match orepr with
+   | None => Ok (s, None, false, false, tg)
+   | Some repr => post_build cx s repr zwp tg
+   end).
+Proof. reflexivity. Qed.
+
+(* ------------------------------------------------------------------------------------------ *)
+(* every segment dispatch builds                                                                *)
+(* ------------------------------------------------------------------------------------------ *)
+Definition ts_opt (s : socket) : Z := if s_tsval_generator s then 12 else 0.
+
+Definition seg_ok (cx : ctx) (g : ghost) (s : socket) (r : tcp_repr) (zwp ka : bool) : Prop :=
+  let n := l_len (r_payload r) in
+  let len := rb_len (s_tx_buffer s) in
+  (ka = true ->
+     r_payload r = [0] /\ r_control r = CNone /\
+     r_seq_number r = seq_subn (tcp_send_next_seq s) 1 /\
+     timer_should_keep_alive (s_timer s) (cx_now cx) = true) /\
+  (ka = false ->
+     (0 < n \/ r_control r = CFin ->
+        g_phase g = PData /\ data_state (s_state s) = true /\
+        repr_header_len r = wtcp_HEADER_LEN + ts_opt s /\
+        exists off, (off = 0 \/ off = g_flight g) /\
+          r_seq_number r = sq (g_iss g + g_una g + off) /\
+          r_payload r = l_slice (g_acked g + off) n (g_stream g) /\
+          off + n <= len /\
+          n <= eff_mss (cx_ip_mtu cx) (s_remote_mss s) (ts_opt s) /\
+          (zwp = false -> n = 0 \/ off + n <= s_remote_win_len s) /\
+          (zwp = true -> n <= 1 /\ off = g_flight g /\ s_remote_win_len s <= g_flight g /\
+                         timer_should_zero_window_probe (s_timer s) (cx_now cx) = true) /\
+          (r_control r = CFin -> off + n = len /\ fin_state (s_state s) = true)) /\
+     (r_control r = CSyn ->
+        n = 0 /\ g_phase g = PSyn /\ zwp = false /\ r_seq_number r = sq (g_iss g + g_una g) /\
+        r_window_len r = u16_try (rb_window (s_rx_buffer s)) /\
+        r_max_seg_size r =
+          Some ((cx_ip_mtu cx - wipv4_HEADER_LEN - wtcp_HEADER_LEN) mod 65536) /\
+        r_window_scale r =
+          (if tcp_state_eqb (s_state s) SynSent then Some (s_remote_win_shift s)
+           else match s_remote_win_scale s with
+                | Some _ => Some (s_remote_win_shift s) | None => None end)) /\
+     (r_control r = CRst -> n = 0 /\ zwp = false) /\
+     (r_control r <> CSyn ->
+        r_window_len r = tcp_scaled_window s /\ r_window_scale r = None /\
+        r_max_seg_size r = None)).
+
+Lemma base_repr_mk : forall a b c d e f, base_repr (mkRepr a b CNone c d e None None false no_sack f []).
+Proof. intros. unfold base_repr. cbn. repeat split; reflexivity. Qed.
+
+Lemma build_spec : forall cx g s t s2 r zwp ka tg,
+  inv g s -> ctx_ok cx ->
+  tcp_dispatch_build cx s t = Ok (s2, Some r, zwp, ka, tg) ->
+  (s2 = s \/ s2 = upd_pending_fast_retransmit s false) /\ seg_ok cx g s r zwp ka.
+Proof.
+  intros cx g s t s2 r zwp ka tg Hinv Hcx H. rewrite build_unfold in H. cbv zeta in H.
+  set (ts := if s_tsval_generator s then Some (cx_tsval cx, s_last_remote_tsval s) else None) in *.
+  set (repr := mkRepr (tu_local_port t) (tu_remote_port t) CNone (s_remote_last_seq s)
+                      (Some (tcp_window_start s)) (tcp_scaled_window s) None None false no_sack ts []) in *.
+  assert (Hbase : base_repr repr) by apply base_repr_mk.
+  assert (Hopt : opt_len repr = ts_opt s).
+  { unfold opt_len, ts_opt, repr, ts. cbn [r_timestamp]. destruct (s_tsval_generator s); reflexivity. }
+  pose proof Hinv as ((Hwf & Hcap & Ha & Hlen & Hc & Hl & Hr & Hf & Hhw & Hpo & Hw & Hs) & Htm).
+  (* the data states *)
+  assert (Hdata : forall s2' r1 zwp1 tg1, data_state (s_state s) = true -> g_phase g = PData ->
+            tcp_dispatch_build_data cx s repr = Ok (s2', Some r1, zwp1, tg1) ->
+            post_build cx s2' r1 zwp1 tg1 = Ok (s2, Some r, zwp, ka, tg) ->
+            (s2 = s \/ s2 = upd_pending_fast_retransmit s false) /\ seg_ok cx g s r zwp ka).
+  { intros s2' r1 zwp1 tg1 Hds Hph Hb Hp.
+    destruct (build_data_spec cx g s repr s2' r1 zwp1 tg1 Hinv Hcx Hbase Hds Hph eq_refl Hb)
+      as (off & n & c & Er & Hoff & Hn0 & Hn1 & Hn2 & Hn3 & Hz0 & Hz1 & Hc1 & Hc2 & Hc3 & Hs2).
+    rewrite Hopt in Hn1.
+    assert (Hsl : l_len (l_slice (g_acked g + off) n (g_stream g)) = n).
+    { pose proof Hwf as (Hl0 & _). destruct (Z.leb_spec off (rb_len (s_tx_buffer s))).
+      - apply l_len_slice; lia.
+      - rewrite (Hn3 ltac:(lia)). rewrite l_slice_nonpos by lia. reflexivity. }
+    assert (Hts : tcp_send_next_seq s2' = tcp_send_next_seq s /\ s_timer s2' = s_timer s).
+    { destruct Hs2 as [->| ->]; split; reflexivity. }
+    destruct Hts as (Hts1 & Hts2).
+    destruct (repr_is_empty r1) eqn:Eemp.
+    - (* nothing to send: a bare ACK or a keep-alive *)
+      assert (Hcn : r_control r1 = CNone /\ n = 0).
+      { rewrite Er in Eemp |- *. unfold repr_is_empty in Eemp.
+        cbn [repr_set_control repr_set_payload r_payload r_control] in Eemp |- *.
+        destruct (l_slice (g_acked g + off) n (g_stream g)) eqn:Esl; [|discriminate].
+        rewrite l_len_nil in Hsl. split; [|lia].
+        destruct Hc1 as [->|[->| ->]]; [reflexivity| |discriminate].
+        specialize (Hc3 eq_refl). lia. }
+      destruct Hcn as (Hcn & Hn00).
+      assert (Ec : c = CNone) by (rewrite Er in Hcn; exact Hcn).
+      destruct (post_empty _ _ _ _ _ _ _ _ _ _ Eemp Hcn Hp) as (-> & -> & [(-> & Er2)|(-> & Hka & Er2)]).
+      + split; [exact Hs2|]. unfold seg_ok. cbv zeta. split; [discriminate|]. intros _.
+        rewrite Er2, Er. cbn [repr_set_seq repr_set_control repr_set_payload r_payload r_control
+                              r_window_len r_window_scale r_max_seg_size r_seq_number].
+        rewrite Hsl, Hn00, Ec.
+        split; [intros [X|X]; [lia|discriminate]|]. split; [discriminate|]. split; [discriminate|].
+        intros _. repeat split; reflexivity.
+      + split; [exact Hs2|]. unfold seg_ok. cbv zeta. split; [|discriminate]. intros _.
+        rewrite Er2. cbn [repr_set_seq repr_set_payload r_payload r_control r_seq_number].
+        rewrite Hts1, <- Hts2. auto.
+    - (* a data segment and/or a FIN *)
+      destruct (post_nonempty _ _ _ _ _ _ _ _ _ _ Hcx Eemp Hp) as (-> & -> & -> & Er2).
+      assert (Ecs : control_eqb (r_control r1) CSyn = false).
+      { rewrite Er. cbn [repr_set_control r_control]. destruct Hc1 as [->|[->| ->]]; reflexivity. }
+      rewrite Ecs in Er2. subst r.
+      split; [exact Hs2|]. unfold seg_ok. cbv zeta. split; [discriminate|]. intros _.
+      rewrite Er. cbn [repr_set_seq repr_set_control repr_set_payload r_payload r_control
+                       r_window_len r_window_scale r_max_seg_size r_seq_number].
+      rewrite Hsl.
+      split.
+      { intros Hpre. split; [exact Hph|]. split; [exact Hds|].
+        split; [rewrite header_len_set, (base_header_len _ Hbase), Hopt; reflexivity|].
+        exists off. split; [exact Hoff|]. split; [reflexivity|]. split; [reflexivity|].
+        assert (Hol : off + n <= rb_len (s_tx_buffer s)).
+        { destruct Hpre as [X|X]; [|apply Hc2 in X; lia].
+          destruct (Z.leb_spec off (rb_len (s_tx_buffer s))); [auto|]. specialize (Hn3 ltac:(lia)). lia. }
+        split; [exact Hol|]. split; [exact Hn1|]. split; [exact Hz0|]. split.
+        - intros X. destruct (Hz1 X) as (Z1 & Z2 & Z3 & Z4). auto.
+        - intros X. apply Hc2. exact X. }
+      split; [intros X; destruct Hc1 as [Y|[Y|Y]]; rewrite Y in X; discriminate|].
+      split; [intros X; destruct Hc1 as [Y|[Y|Y]]; rewrite Y in X; discriminate|].
+      intros _. repeat split; reflexivity. }
+  (* SYN segments *)
+  assert (Hsyn : forall syn_sent, g_phase g = PSyn ->
+            tcp_state_eqb (s_state s) SynSent = syn_sent ->
+            post_build cx s (tcp_syn_repr s repr ts syn_sent) false tg = Ok (s2, Some r, zwp, ka, tg) ->
+            (s2 = s \/ s2 = upd_pending_fast_retransmit s false) /\ seg_ok cx g s r zwp ka).
+  { intros syn_sent Hph Hss Hp.
+    destruct (post_nonempty cx s (tcp_syn_repr s repr ts syn_sent) _ _ _ _ _ _ _ Hcx eq_refl Hp)
+      as (-> & -> & -> & Er2).
+    cbn [tcp_syn_repr r_control control_eqb] in Er2. subst r.
+    split; [left; reflexivity|]. unfold seg_ok. cbv zeta. split; [discriminate|]. intros _.
+    cbn [with_mss tcp_syn_repr r_payload r_control r_window_len r_window_scale r_max_seg_size
+         r_seq_number].
+    rewrite l_len_nil.
+    split; [intros [X|X]; [lia|discriminate]|].
+    split.
+    { intros _. split; [reflexivity|]. split; [exact Hph|]. split; [reflexivity|].
+      split; [rewrite Hl; reflexivity|]. split; [reflexivity|]. split; [reflexivity|].
+      rewrite Hss. destruct syn_sent; reflexivity. }
+    split; [discriminate|]. intros X. congruence. }
+  unfold phase_ok in Hpo.
+  destruct (s_state s) eqn:Est; cbn [obind] in H.
+  - (* Closed: RST *)
+    destruct (post_nonempty cx s (repr_set_control repr CRst) _ _ _ _ _ _ _ Hcx eq_refl H)
+      as (-> & -> & -> & Er2).
+    cbn [repr_set_control r_control control_eqb] in Er2. subst r.
+    split; [left; reflexivity|]. unfold seg_ok. cbv zeta. split; [discriminate|]. intros _.
+    cbn [repr_set_control r_payload r_control r_window_len r_window_scale r_max_seg_size
+         r_seq_number repr]. rewrite l_len_nil.
+    split; [intros [X|X]; [lia|discriminate]|]. split; [discriminate|].
+    split; [intros _; split; reflexivity|]. intros _. repeat split; reflexivity.
+  - discriminate.
+  - (* SynSent *)
+    assert (Etg : tg = 222).
+    { unfold post_build in H. destruct (control_eqb _ CSyn); cbn [obind] in H;
+      repeat match type of H with context [obind ?x _] => destruct x; cbn [obind] in H; try discriminate end;
+      injection H; auto. }
+    subst tg. apply (Hsyn true); [destruct (g_phase g); tauto|reflexivity|exact H].
+  - (* SynReceived *)
+    assert (Etg : tg = 223).
+    { unfold post_build in H. destruct (control_eqb _ CSyn); cbn [obind] in H;
+      repeat match type of H with context [obind ?x _] => destruct x; cbn [obind] in H; try discriminate end;
+      injection H; auto. }
+    subst tg. apply (Hsyn false); [destruct (g_phase g); tauto|reflexivity|exact H].
+  - (* Established *)
+    destruct (tcp_dispatch_build_data cx s repr) as [[[[s2' [r1|]] zwp1] tg1]| |] eqn:Eb;
+      cbn [obind] in H; try discriminate.
+    apply (Hdata s2' r1 zwp1 tg1); [reflexivity|destruct (g_phase g); tauto|reflexivity|exact H].
+  - (* FinWait1 *)
+    destruct (s_syn_unacked_in_fin_wait s) eqn:Efw; cbn [obind] in H.
+    + assert (Etg : tg = 228).
+      { unfold post_build in H. destruct (control_eqb _ CSyn); cbn [obind] in H;
+        repeat match type of H with context [obind ?x _] => destruct x; cbn [obind] in H; try discriminate end;
+        injection H; auto. }
+      subst tg. apply (Hsyn false); [|reflexivity|exact H].
+      destruct (g_phase g); [reflexivity| |tauto]. destruct Hpo as (_ & X). discriminate.
+    + destruct (tcp_dispatch_build_data cx s repr) as [[[[s2' [r1|]] zwp1] tg1]| |] eqn:Eb;
+        cbn [obind] in H; try discriminate.
+      apply (Hdata s2' r1 zwp1 tg1); [reflexivity| |reflexivity|exact H].
+      destruct (g_phase g); [|reflexivity|tauto]. destruct Hpo as (_ & _ & _ & X). discriminate.
+  - (* FinWait2: a bare ACK or a keep-alive *)
+    assert (Hemp : repr_is_empty repr = true) by reflexivity.
+    destruct (post_empty _ _ _ _ _ _ _ _ _ _ Hemp eq_refl H) as (-> & -> & [(-> & Er2)|(-> & Hka & Er2)]);
+    (split; [left; reflexivity|]); unfold seg_ok; cbv zeta; subst r.
+    + split; [discriminate|]. intros _.
+      cbn [repr_set_seq r_payload r_control r_window_len r_window_scale r_max_seg_size r_seq_number repr].
+      rewrite l_len_nil.
+      split; [intros [X|X]; [lia|discriminate]|]. split; [discriminate|]. split; [discriminate|].
+      intros _. repeat split; reflexivity.
+    + split; [|discriminate]. intros _. cbn [repr_set_seq repr_set_payload r_payload r_control r_seq_number repr].
+      auto.
+  - (* CloseWait *)
+    destruct (tcp_dispatch_build_data cx s repr) as [[[[s2' [r1|]] zwp1] tg1]| |] eqn:Eb;
+      cbn [obind] in H; try discriminate.
+    apply (Hdata s2' r1 zwp1 tg1); [reflexivity|destruct (g_phase g); tauto|reflexivity|exact H].
+  - (* Closing *)
+    destruct (tcp_dispatch_build_data cx s repr) as [[[[s2' [r1|]] zwp1] tg1]| |] eqn:Eb;
+      cbn [obind] in H; try discriminate.
+    apply (Hdata s2' r1 zwp1 tg1); [reflexivity|destruct (g_phase g); tauto|reflexivity|exact H].
+  - (* LastAck *)
+    destruct (tcp_dispatch_build_data cx s repr) as [[[[s2' [r1|]] zwp1] tg1]| |] eqn:Eb;
+      cbn [obind] in H; try discriminate.
+    apply (Hdata s2' r1 zwp1 tg1); [reflexivity|destruct (g_phase g); tauto|reflexivity|exact H].
+  - (* TimeWait *)
+    assert (Hemp : repr_is_empty repr = true) by reflexivity.
+    destruct (post_empty _ _ _ _ _ _ _ _ _ _ Hemp eq_refl H) as (-> & -> & [(-> & Er2)|(-> & Hka & Er2)]);
+    (split; [left; reflexivity|]); unfold seg_ok; cbv zeta; subst r.
+    + split; [discriminate|]. intros _.
+      cbn [repr_set_seq r_payload r_control r_window_len r_window_scale r_max_seg_size r_seq_number repr].
+      rewrite l_len_nil.
+      split; [intros [X|X]; [lia|discriminate]|]. split; [discriminate|]. split; [discriminate|].
+      intros _. repeat split; reflexivity.
+    + split; [|discriminate]. intros _. cbn [repr_set_seq repr_set_payload r_payload r_control r_seq_number repr].
+      auto.
+Qed.
